@@ -56,13 +56,14 @@ import (
 )
 
 type Case struct {
-	Kind    string `json:"kind"` // decoder | command
-	Decoder string `json:"decoder,omitempty"`
-	Hex     string `json:"hex,omitempty"`
-	Origin  string `json:"origin,omitempty"`
-	SiteOff int    `json:"site_off"` // offset of the length prefix the check wrote, -1 none
-	Graph   string `json:"graph,omitempty"`
-	Line    string `json:"line,omitempty"`
+	Kind    string   `json:"kind"`              // decoder | command | reuse
+	History []string `json:"history,omitempty"` // reuse: hex inputs decoded one after another into one destination
+	Decoder string   `json:"decoder,omitempty"`
+	Hex     string   `json:"hex,omitempty"`
+	Origin  string   `json:"origin,omitempty"`
+	SiteOff int      `json:"site_off"` // offset of the length prefix the check wrote, -1 none
+	Graph   string   `json:"graph,omitempty"`
+	Line    string   `json:"line,omitempty"`
 }
 
 func caseJSON(c Case) string { b, _ := json.Marshal(c); return string(b) }
@@ -527,6 +528,7 @@ func main() {
 		rep.Finish()
 	})
 	buildDecoders()
+	buildReusables()
 	if rep.ReplayPath != "" {
 		replay()
 		return
@@ -542,6 +544,7 @@ func main() {
 	jobs = append(jobs, famJSON(N)...)
 	jobs = append(jobs, famA(L)...)
 	jobs = append(jobs, famInflated(4)...)
+	jobs = append(jobs, famReuse(rep.Thorough())...)
 	engine.ParallelFor(len(jobs), func(slot, i int) { jobs[i](slot) })
 
 	var famAStrings int64
@@ -571,6 +574,13 @@ func main() {
 	rep.Extra("alphabet", "00 01 02 0a 7f 80 ff")
 	rep.Extra("overwrite_values", "-1, min of the prefix type, 0, actual-1, actual+1, remaining+1, 2^20 (2^12 for NBT list lengths; type maximum when smaller); 64-bit counts also MinInt32 and 2^62")
 	rep.Extra("mutation_positions", "seeds of <= 200 bytes: every offset; longer seeds: first 64 bytes, last 8 bytes and 2 bytes around every length prefix")
+	rep.Extra("reuse_destinations", func() []string {
+		var n []string
+		for _, u := range reusables {
+			n = append(n, u.Name)
+		}
+		return n
+	}())
 	rep.Count("seeds", seedsTotal)
 	rep.Count("seeds_accepted_by_go-mc", seedsAccepted)
 	rep.Count("seeds_with_restricted_positions", seedsRestricted)
@@ -667,6 +677,27 @@ func replay() {
 		}
 		fmt.Fprintln(os.Stderr, "unknown graph", c.Graph)
 		os.Exit(2)
+	}
+	if c.Kind == "reuse" {
+		u := findReusable(c.Decoder)
+		if u == nil {
+			fmt.Fprintln(os.Stderr, "unknown reusable destination", c.Decoder)
+			os.Exit(2)
+		}
+		var hist [][]byte
+		for _, h := range c.History {
+			b, err := hex.DecodeString(h)
+			if err != nil {
+				engine.HarnessError("bad hex: %v", err)
+			}
+			hist = append(hist, b)
+		}
+		fmt.Printf("replaying the history %s on one %s destination\n", clipHist(hist), c.Decoder)
+		for i := 0; i < 5; i++ {
+			runHistory(0, u, hist)
+		}
+		rep.Eval(5)
+		rep.Finish()
 	}
 	d := findDecoder(c.Decoder)
 	if d == nil {
